@@ -1,4 +1,5 @@
 import HdVerif.Model.Basic
+import HdVerif.Generated.T14
 /-! # Model of `highdicom.sr.value_types.ContentSequence` (property C14)
 
 State = the underlying list (`pydicom` `ConstrainedList._list`), the shadow index `_lut`
@@ -68,30 +69,29 @@ def checkAll (f : Item → Except ErrKind Unit) : List Item → Except ErrKind U
     | .ok _ => checkAll f xs
     | .error e => .error e
 
+def unitOf (r : Except ErrKind Bool) : Except ErrKind Unit :=
+  match r with
+  | .ok _ => .ok ()
+  | .error e => .error e
+
+/-! The relationship-type decision trees are the ones REGENERATED from the current source
+(`Generated/T14.lean`); the model only ever offers content items (`is_item = true`). -/
+
 /-- the per-item checks of `ContentSequence.__init__` -/
 def ctorCheck (isRoot isSr : Bool) (it : Item) : Except ErrKind Unit :=
-  if isRoot then
-    if it.rel.isSome then .error .attribute
-    else if !it.isContainer then .error .type
-    else .ok ()
-  else if isSr then
-    if it.rel.isNone then .error .attribute else .ok ()
-  else
-    if it.rel.isSome then .error .attribute else .ok ()
+  unitOf (Gen.csCtorCheck isRoot isSr true it.rel.isSome it.isContainer)
 
-/-- the relationship checks of `append` (and, repaired, of `__setitem__`) -/
+/-- the relationship checks of `append` -/
 def appendCheck (s : Seq) (it : Item) : Except ErrKind Unit :=
-  if s.isRoot then
-    if s.isSr && it.rel.isSome then .error .attribute else .ok ()
-  else
-    if s.isSr && it.rel.isNone then .error .attribute else .ok ()
+  unitOf (Gen.csAppendCheck s.isRoot s.isSr true it.rel.isSome)
 
 /-- the relationship checks of `insert` -/
 def insertCheck (s : Seq) (it : Item) : Except ErrKind Unit :=
-  if s.isRoot then
-    if it.rel.isSome then .error .attribute else .ok ()
-  else
-    if s.isSr && it.rel.isNone then .error .attribute else .ok ()
+  unitOf (Gen.csInsertCheck s.isRoot s.isSr true it.rel.isSome)
+
+/-- the per-item checks of `__setitem__` -/
+def setitemCheck (s : Seq) (it : Item) : Except ErrKind Unit :=
+  unitOf (Gen.csSetitemCheck s.isRoot s.isSr true it.rel.isSome)
 
 /-- `ContentSequence._check_dataset` (the part about the relationship type) -/
 def datasetCheck (isRoot isSr : Bool) (it : Item) : Except ErrKind Unit :=
@@ -101,8 +101,9 @@ def datasetCheck (isRoot isSr : Bool) (it : Item) : Except ErrKind Unit :=
 
 /-- `ContentSequence(items, is_root, is_sr)` -/
 def construct (items : List Item) (isRoot isSr : Bool) : Except ErrKind Seq :=
-  if isRoot && !isSr then .error .value
-  else
+  match Gen.csCtorFlags isRoot isSr with
+  | .error e => .error e
+  | .ok _ =>
     match checkAll (ctorCheck isRoot isSr) items with
     | .error e => .error e
     | .ok _ => .ok { items := items, lut := lutAddAll emptyLut items, isRoot := isRoot, isSr := isSr }
@@ -239,7 +240,7 @@ def commitReplace (s : Seq) (items' old new : List Item) : Res :=
 
 /-- `seq[i] = x` -/
 def setItem (s : Seq) (i : Int) (x : Item) : Res :=
-  match appendCheck s x with
+  match setitemCheck s x with
   | .error e => (s, some e)
   | .ok _ =>
     match normIdx s.items.length i with
@@ -248,7 +249,7 @@ def setItem (s : Seq) (i : Int) (x : Item) : Res :=
 
 /-- `seq[start:stop:step] = xs` -/
 def setSlice (s : Seq) (start stop step : Option Int) (xs : List Item) : Res :=
-  match checkAll (appendCheck s) xs with
+  match checkAll (setitemCheck s) xs with
   | .error e => (s, some e)
   | .ok _ =>
     match resolveSlice s.items.length start stop step with
